@@ -172,6 +172,11 @@ func runC16(c *an.Ctx) {
 					fs = append(append(an.FactSet{}, fs...), unsignedFacts(ft, v, 4)...)
 					okB := ff.ProveGEFacts(fs, an.Var("Height(p3)", true), ft.Affine(v), 0)
 					c.Check(okB, "C16.c", "estimate-within-chain:"+an.Stable(ft.Of(v)), "every estimate the window search starts from is proven ≤ head.Height() (header times may be spaced wider than the block time: halted chain)", find, walk, "estimate "+an.Stable(ft.Of(v)), fs)
+					// … and ≥ 1: an estimate of 0 is at or below every old tail, both walks are skipped and
+					// height 0 becomes the new tail (heights of real headers, old tail and head, are ≥ 1)
+					fs1 := append(append(an.FactSet{}, fs...), an.GE("Height(p2)", "1"), an.GE("Height(p3)", "1"))
+					okOne := ff.ProveGEFacts(fs1, ft.Affine(v), an.Const(1), 0)
+					c.Check(okOne, "C16.c", "search-estimate>=1:"+an.Stable(ft.Of(v)), "every estimate the window search starts from is proven ≥ 1 (1 ≤ Tail)", find, walk, "estimate "+an.Stable(ft.Of(v)), fs1)
 				}
 				leaves(pe.Val, pe.Facts, 0)
 			}
